@@ -75,6 +75,8 @@ func init() {
 			}
 		}
 		out = append(out, &vexplore.Scenario{Name: "payload-sequences", Mode: "enum", Reset: kit.ResetGlobals, Body: payloads, NeedCounters: []string{"empty-payload-delivered", "header-like-payload-delivered"}})
+		out = append(out, &vexplore.Scenario{Name: "bus-slow-peer-and-the-two-queue-lengths", Mode: "enum", Reset: kit.ResetGlobals, Body: busQueueLengths, NeedCounters: []string{"slow-peer-given-all-queued"}})
+		out = append(out, &vexplore.Scenario{Name: "bus-received-message-sent-on", Mode: "enum", Reset: kit.ResetGlobals, Body: busSendReceived, NeedCounters: []string{"sent-on-to-every-peer"}})
 		out = append(out, &vexplore.Scenario{Name: "star-chains-within-hop-limit", Mode: "enum", Reset: kit.ResetGlobals, Body: starChain, NeedCounters: []string{"far-end-reached-at-exact-limit"}})
 		out = append(out, &vexplore.Scenario{Name: "star-hub-with-a-stalled-member", Mode: "enum", Reset: kit.ResetGlobals, Body: starStalled, NeedCounters: []string{"healthy-member-got-everything"}})
 		out = append(out, &vexplore.Scenario{Name: "once-after-reconnect", Mode: "enum", Reset: kit.ResetGlobals, Body: onceAfterReconnect, NeedCounters: []string{"reconnected-once"}})
@@ -297,6 +299,132 @@ func payloads() {
 			_ = s.Close()
 		}
 	})
+}
+
+// busQueueLengths: a BUS / raw BUS / STAR socket with WriteQLen 4 and ReadQLen 1 (two separate options) and
+// two peers, one of which takes nothing for a while.  Four messages are sent: every Send returns at
+// once, the quick peer has all four, and the slow one - whose send queue holds four - is given all
+// four, in order, once it takes them.
+func busQueueLengths() {
+	ki := kit.ChooseFree(3)
+	c := []ctor{bus.NewSocket, xbus.NewSocket, star.NewSocket}[ki]
+	QueueLengths([]string{"bus", "xbus", "star"}[ki], c, nil, []int{0, 0, 4}[ki])
+}
+
+// QueueLengths is the body of the scenario above for any pattern that keeps one send queue per
+// connection (also run under C06 for PUB and under C07 for the raw SURVEYOR): hdr is the protocol
+// header the application supplies (raw sockets), strip the number of bytes the pattern puts in
+// front of the body on the wire.
+func QueueLengths(name string, c func() (mangos.Socket, error), hdr []byte, strip int) {
+	slowFirst := kit.ChooseFree(2) == 1
+	s, err := c()
+	must(err, "NewSocket")
+	must(s.SetOption(mangos.OptionWriteQLen, 4), "WriteQLen")
+	if err := s.SetOption(mangos.OptionReadQLen, 1); err != nil && err != mangos.ErrBadOption { // send-only patterns have none
+		must(err, "ReadQLen")
+	}
+	ep := vt.Get("c08q")
+	must(s.Listen("vt://c08q"), "Listen")
+	a, b := ep.Connect(), ep.Connect()
+	kit.Quiesce()
+	slow, quick := a, b
+	if !slowFirst {
+		slow, quick = b, a
+	}
+	slow.Hold(true)
+	want := []string{"m0", "m1", "m2", "m3"}
+	for _, body := range want {
+		cl := kit.Start("Send", func() (interface{}, error) {
+			if hdr == nil {
+				return nil, kit.SendBytes(s, []byte(body))
+			}
+			m := mangos.NewMessage(8)
+			m.Header = append(m.Header, hdr...)
+			m.Body = append(m.Body, body...)
+			return nil, s.SendMsg(m)
+		})
+		kit.Quiesce()
+		if !cl.Done() || cl.Err != nil {
+			kit.Failf("send-stuck", "%s: Send(%s) with one slow peer: done=%v %s", name, body, cl.Done(), kit.ErrName(cl.Err))
+		}
+	}
+	slow.Hold(false)
+	slow.Take(10)
+	kit.Quiesce()
+	for pi, p := range []*vt.Pipe{quick, slow} {
+		var got []string
+		for _, sm := range p.SentLog() {
+			got = append(got, string(sm.Data[strip:]))
+		}
+		if fmt.Sprint(got) != fmt.Sprint(want) {
+			kit.Failf("queued-for-slow-peer-lost", "%s, WriteQLen 4, ReadQLen 1: 4 messages sent while one peer took nothing; the %s peer was given %q, want all four in order", name, []string{"quick", "slow"}[pi], got)
+		}
+	}
+	kit.Count("slow-peer-given-all-queued")
+	kit.Observe("%s %v", name, slowFirst)
+	kit.Must("Close", func() { _ = s.Close() })
+}
+
+// busSendReceived: the application of a BUS socket receives a message with RecvMsg and sends that
+// very message on with SendMsg.  Send delivers to every directly connected peer - the one the
+// message came from as well (only the raw socket, where the application sets the header itself,
+// leaves the originating connection out).
+func busSendReceived() {
+	from := kit.ChooseFree(2)
+	how := kit.ChooseFree(6)
+	s, err := bus.NewSocket()
+	must(err, "NewSocket")
+	var ids []uint32
+	s.SetPipeEventHook(func(ev mangos.PipeEvent, p mangos.Pipe) {
+		if ev == mangos.PipeEventAttached {
+			ids = append(ids, p.ID())
+		}
+	})
+	ep := vt.Get("c08f")
+	must(s.Listen("vt://c08f"), "Listen")
+	pipes := []*vt.Pipe{ep.Connect()}
+	kit.Quiesce()
+	pipes = append(pipes, ep.Connect())
+	kit.Quiesce()
+	pipes[from].Deliver([]byte("pass-it-on"))
+	rc := kit.Start("RecvMsg", func() (interface{}, error) { return s.RecvMsg() })
+	kit.Quiesce()
+	if !rc.Done() || rc.Err != nil {
+		kit.Failf("recv", "RecvMsg done=%v %s", rc.Done(), kit.ErrName(rc.Err))
+	}
+	m := rc.Val.(*mangos.Message)
+	if string(m.Body) != "pass-it-on" {
+		kit.Failf("payload-differs", "received %q", m.Body)
+	}
+	// the Header field of a message is not the application's business on a cooked socket: whatever
+	// it holds (what RecvMsg left there, or bytes the application put there - among them the id of
+	// one of the socket's connections) is ignored
+	hdr := [][]byte{nil, {1}, {1, 2, 3}, {0, 0, 0, 0}, {0, 0, 0, 0}, {1, 2, 3, 4, 5, 6, 7, 8}}[how]
+	if how == 3 || how == 4 {
+		id := ids[how-3]
+		hdr = []byte{byte(id >> 24), byte(id >> 16), byte(id >> 8), byte(id)}
+	}
+	if how > 0 {
+		m.Header = append(m.Header[:0], hdr...)
+	}
+	sc := kit.Start("SendMsg", func() (interface{}, error) { return nil, s.SendMsg(m) })
+	kit.Quiesce()
+	if !sc.Done() || sc.Err != nil {
+		kit.Failf("send-stuck", "SendMsg of the received message: done=%v %s", sc.Done(), kit.ErrName(sc.Err))
+	}
+	for pi, p := range pipes {
+		l := p.SentLog()
+		if len(l) != 1 || string(l[0].Data) != "pass-it-on" {
+			var got []string
+			for _, sm := range l {
+				got = append(got, string(sm.Data))
+			}
+			kit.Failf("peer-left-out", "a message received from peer %d was sent on with SendMsg (Header field: %x): peer %d was given %q, want the body once (Send goes to every directly connected peer)", from, hdr, pi, got)
+		}
+	}
+	kit.Count("sent-on-to-every-peer")
+	kit.Observe("%d %d", from, how)
+	kit.Must("Close", func() { _ = s.Close() })
 }
 
 func clipq(s string) string {
